@@ -138,6 +138,9 @@ func (c29Engine) Generate(seed uint64, tier string) *simrun.Case {
 			c.Faults = append(c.Faults, simrun.Op{K: kind, A: []int64{int64(r.Intn(12)), []int64{1, 3, 6, 20}[r.Intn(4)]}})
 		}
 	}
+	// swarm: in two thirds of the runs every mutex release is followed by a scheduling point (a goroutine can lose
+	// the processor right after an Unlock, before its next statement)
+	c.Knobs["unlock_yield"] = []int64{0, 1, 1}[r.Intn(3)]
 	return c
 }
 
